@@ -487,6 +487,10 @@ func TestRegexType(t *testing.T) {
 				// several such classes in different sub-expressions; ranges that span the surrogate gap
 				{`[^\x00-\x7f]-[^\x00-\x7f]`, "\u00e9-\u00e9", "a-b", "\u00e9-", "-"}, {`[^\x00-\x7f]+@[^\x00-\x7f]+`, "\u00e9\u00e9@\u00fc", "a@b", "@", "\u00e9@"},
 				{`[\x{3000}-\x{EFFF}]{10}`, "\u4e00\u4e01\u4e02\u4e03\u4e04\u4e05\u4e06\u4e07\u4e08\u4e09", "abcdefghij", "\u4e00", ""}, {`id-[\x{A000}-\x{F8FF}]{4}`, "id-\ua000\ua001\ua002\ua003", "id-abcd", "id-", "\ua000"},
+				// assertions in the middle of the pattern that only one kind of character satisfies: the line feed a
+				// multi-line ^ or $ asks for, the word (or non-word) character behind \b and \B
+				{`(?ms)^BEGIN$.*^END$`, "BEGIN\nEND", "BEGINEND", "BEGIN\nx\nEND", ""}, {`(?m)^a$[\s\S]*^b$`, "a\nb", "ab", "a\n\nb", "a b"},
+				{`(?m)^a$\W^b$`, "a\nb", "a b", "ab", "a\n"}, {`\d\B\pL+`, "1a", "1-", "1", "a1"},
 				{`[\x{D000}-\x{E000}]{6}`, "\ud000\ud001\ud002\ud003\ud004\ud005", "abcdef", "", "\ud000"},
 			}).Draw(t, "curatedPattern")
 			c = RegexCase{Pattern: cur[0], Tail: tail, Probes: cur[1:]}
